@@ -63,6 +63,10 @@ func (f *WithOpenStream) Call(s *slip.Scope, args slip.List, depth int) (result 
 		args = args[1:]
 		for i := range args {
 			result = slip.EvalArg(s2, args, i, d2)
+			if _, exit := result.(slip.NonLocalExit); exit {
+				// return-from, return or go: control is leaving the body.
+				return
+			}
 		}
 	} else {
 		slip.TypePanic(s, depth, "stream", subArgs[1], "stream")
